@@ -6,6 +6,7 @@ package c11
 import (
 	"bytes"
 	"errors"
+	"fmt"
 	"io"
 	"net"
 	"testing"
@@ -452,4 +453,156 @@ func TestLoopbackTCP(t *testing.T) {
 		}
 		return nil
 	}, func(c lc) bool { return c.Len > 0 })
+}
+
+// ---- several goroutines sending through one transport ----------------------------------------------------------
+//
+// The property's quantifier ranges over schedules as well as inputs. net.Conn allows concurrent Write calls and
+// serialises each call as a whole, so a Send that puts a frame on the wire with one Write keeps frames intact
+// when several goroutines share a transport; a Send that writes header and payload separately lets them
+// interleave (H1 H2 D1 D2). Every goroutine sends payloads that carry its own tag in every byte, with lengths of
+// its own; the peer must receive exactly the multiset of payloads that were sent, each one homogeneous.
+
+type concCase struct {
+	Senders int   `json:"senders"`
+	Lens    []int `json:"payload_lengths"` // per sender and round: Lens[(s*Rounds+r) % len(Lens)]
+	Rounds  int   `json:"rounds"`
+	Pipe    bool  `json:"net_pipe"` // net.Pipe instead of loopback TCP
+}
+
+func checkConcurrentSenders(c concCase) []vf.Finding {
+	var a, b net.Conn
+	if c.Pipe {
+		a, b = net.Pipe()
+	} else {
+		ln, err := net.Listen("tcp", "127.0.0.1:0")
+		if err != nil {
+			return []vf.Finding{vf.F("harness", "cannot-listen", "%v", err)}
+		}
+		defer ln.Close()
+		acc := make(chan net.Conn, 1)
+		go func() {
+			conn, _ := ln.Accept()
+			acc <- conn
+		}()
+		var err2 error
+		a, err2 = net.Dial("tcp", ln.Addr().String())
+		if err2 != nil {
+			return []vf.Finding{vf.F("harness", "cannot-connect", "%v", err2)}
+		}
+		b = <-acc
+		if b == nil {
+			a.Close()
+			return []vf.Finding{vf.F("harness", "cannot-accept", "")}
+		}
+	}
+	defer a.Close()
+	defer b.Close()
+	tx, rx := nbt.NewNBTTransportFromConn(a), nbt.NewNBTTransportFromConn(b)
+	lenOf := func(s, r int) int { return c.Lens[(s*c.Rounds+r)%len(c.Lens)] }
+	want := map[string]int{} // "tag/len" -> how many
+	total := 0
+	for s := 0; s < c.Senders; s++ {
+		for r := 0; r < c.Rounds; r++ {
+			want[fmt.Sprintf("%d/%d", s+1, lenOf(s, r))]++
+			total++
+		}
+	}
+	type rcv struct {
+		msgs [][]byte
+		err  error
+	}
+	done := make(chan rcv, 1)
+	go func() {
+		var out rcv
+		for i := 0; i < total; i++ {
+			b.SetReadDeadline(time.Now().Add(10 * time.Second))
+			m, err := rx.Receive()
+			if err != nil {
+				out.err = err
+				break
+			}
+			out.msgs = append(out.msgs, m)
+		}
+		done <- out
+	}()
+	start := make(chan struct{})
+	errs := make(chan error, c.Senders)
+	for s := 0; s < c.Senders; s++ {
+		go func(s int) {
+			<-start
+			for r := 0; r < c.Rounds; r++ {
+				if _, err := tx.Send(bytes.Repeat([]byte{byte(s + 1)}, lenOf(s, r))); err != nil {
+					errs <- err
+					return
+				}
+			}
+			errs <- nil
+		}(s)
+	}
+	close(start)
+	// the receiver ends first (all messages, an error, or its read deadline); closing the connection then
+	// releases senders that are still blocked because the peer stopped reading a stream it cannot frame
+	got := <-done
+	a.Close()
+	b.Close()
+	var sendErr error
+	for s := 0; s < c.Senders; s++ {
+		if err := <-errs; err != nil && sendErr == nil {
+			sendErr = err
+		}
+	}
+	var fs []vf.Finding
+	if sendErr != nil && got.err == nil && len(got.msgs) == total {
+		fs = append(fs, vf.F("NBTTransport.Send", "frameable-payload-refused", "concurrent sender: %v", sendErr))
+	}
+	for i, m := range got.msgs {
+		if len(m) == 0 {
+			want["0/0"]-- // not generated; shows up below as unexpected
+			continue
+		}
+		tag := m[0]
+		homogeneous := true
+		for _, x := range m {
+			if x != tag {
+				homogeneous = false
+				break
+			}
+		}
+		if !homogeneous {
+			fs = append(fs, vf.F("NBTTransport", "frames-of-concurrent-senders-interleaved", "message %d of %d (%d bytes) mixes the bytes of several senders", i, total, len(m)))
+			return fs
+		}
+		k := fmt.Sprintf("%d/%d", tag, len(m))
+		if want[k] == 0 {
+			fs = append(fs, vf.F("NBTTransport", "frames-of-concurrent-senders-interleaved", "message %d: %d bytes of sender %d were received, no such payload was sent", i, len(m), tag))
+			return fs
+		}
+		want[k]--
+	}
+	if got.err != nil || len(got.msgs) != total {
+		fs = append(fs, vf.F("NBTTransport", "frames-of-concurrent-senders-interleaved", "%d of %d messages received intact, then: %v", len(got.msgs), total, got.err))
+	}
+	return fs
+}
+
+func TestConcurrentSenders(t *testing.T) {
+	s := vf.Begin(t, P, "concurrent-senders")
+	vf.Rapid(s, vf.N(60, 600), func(t *rapid.T) concCase {
+		c := concCase{Senders: rapid.IntRange(2, 6).Draw(t, "senders"), Rounds: rapid.IntRange(3, 30).Draw(t, "rounds"), Pipe: rapid.Bool().Draw(t, "pipe")}
+		n := rapid.IntRange(1, 8).Draw(t, "distinctLens")
+		for i := 0; i < n; i++ {
+			switch rapid.IntRange(0, 3).Draw(t, "lenClass") {
+			case 0:
+				c.Lens = append(c.Lens, rapid.IntRange(1, 64).Draw(t, "small"))
+			case 1:
+				c.Lens = append(c.Lens, rapid.IntRange(4000, 9000).Draw(t, "medium"))
+			case 2:
+				c.Lens = append(c.Lens, rapid.IntRange(60000, 70000).Draw(t, "large"))
+			default:
+				c.Lens = append(c.Lens, rapid.IntRange(1, 20000).Draw(t, "any"))
+			}
+		}
+		return c
+	}, checkConcurrentSenders, func(c concCase) bool { return c.Senders >= 2 && c.Rounds >= 3 })
 }
